@@ -336,10 +336,10 @@ class Lane(object):
         mapping = {}
         for v in ir.free_vars(self.t):
             nm = v.args[0]
-            if nm.endswith('@i'):
-                mapping[v] = ir.var('%s@%s' % (nm[:-2], ir.show(kt)), v.sort)
-            elif v is IDX:
+            if v is IDX:
                 mapping[v] = kt
+            elif nm.endswith('@i'):
+                mapping[v] = ir.var('%s@%s' % (nm[:-2], ir.show(kt)), v.sort)
         return Sym(ir.substitute(self.t, mapping))
 
     # ---- reductions (adversarial w.r.t. the other lanes) ----
@@ -392,6 +392,8 @@ class Lane(object):
         return Sym(m)
 
     def sum(self, axis=None):
+        if _is_one(self.n) and self.mask is None and not _mentions_lane(self.t) and self.t.sort == 'R':
+            return Sym(self.t)                       # the sum of a one-element array is its element
         return Sym(ir.uf('np.sum', [self.whole()], 'I' if self.t.sort in ('B', 'I') else 'R'))
 
     def mean(self, axis=None):
@@ -514,8 +516,21 @@ def _universally(t):
     return r.verdict == 'proved'
 
 
+_ML_CACHE = {}
+
+
 def _mentions_lane(t):
-    return any(v.args[0].endswith('@i') or v is IDX for v in ir.free_vars(t))
+    """does t depend on the generic lane index?  (occurrences under the whole-array binder arr(...) are bound)"""
+    r = _ML_CACHE.get(t)
+    if r is None:
+        if t.op == 'var':
+            r = t.args[0].endswith('@i') or t is IDX
+        elif t.op == 'const' or (t.op == 'uf' and t.args[0] == 'arr'):
+            r = False
+        else:
+            r = any(_mentions_lane(a) for a in t.args if isinstance(a, ir.T))
+        _ML_CACHE[t] = r
+    return r
 
 
 class GenIndex(object):
@@ -623,6 +638,10 @@ class Arr2(object):
 
     def whole(self):
         return ir.uf('arr2', [c.whole() for c in self.cols], 'U')
+
+    def tolist(self):
+        from .interp import GenRows
+        return GenRows([c.copy() for c in self.cols])
 
     def getitem(self, key):
         if isinstance(key, tuple) and len(key) == 2:
@@ -737,6 +756,12 @@ def _fn1(name, t):
     if name == 'not':
         return ir.not_(t)
     if name == 'isnan':
+        if t.op == 'const':
+            return ir.TRUE if t.args[0] == 'nan' else ir.FALSE
+        if t.op == 'ite':
+            return ir.ite(t.args[0], _fn1('isnan', t.args[1]), _fn1('isnan', t.args[2]))
+        if t.op == 'abs':
+            return _fn1('isnan', t.args[0])
         return ir.uf('isnan', [t], 'B') if _nanable(t) else ir.FALSE
     return ir.uf(name, [t])
 
